@@ -21,15 +21,28 @@ func (eng *Engine) bumpSet(fn *types.Func) map[string]bool {
 	return eng.bumpSetLocked(fn, map[*types.Func]bool{})
 }
 
+// bumpSetInner: the counters the BODY of fn may bump - fn's own counted event
+// (if it is itself a counted function) is added by the caller after the havoc,
+// so it must not make the counter forget its value.
+func (eng *Engine) bumpSetInner(fn *types.Func) map[string]bool {
+	eng.mu.Lock()
+	defer eng.mu.Unlock()
+	if fn != nil && len(eng.bumpsOf(fn)) > 0 && !isIfaceMethod(fn) && eng.inModule(fn) {
+		f := fn
+		if o := fn.Origin(); o != nil {
+			f = o
+		}
+		return eng.bumpBodyLocked(f, map[*types.Func]bool{})
+	}
+	return eng.bumpSetLocked(fn, map[*types.Func]bool{})
+}
+
 func (eng *Engine) bumpSetLocked(fn *types.Func, onStack map[*types.Func]bool) map[string]bool {
 	if fn == nil {
 		return map[string]bool{bumpAll: true}
 	}
 	if o := fn.Origin(); o != nil {
 		fn = o
-	}
-	if s, ok := eng.bumpMemo[fn]; ok {
-		return s
 	}
 	if bs := eng.bumpsOf(fn); len(bs) > 0 {
 		out := map[string]bool{}
@@ -38,8 +51,18 @@ func (eng *Engine) bumpSetLocked(fn *types.Func, onStack map[*types.Func]bool) m
 		}
 		return out
 	}
+	if s, ok := eng.bumpMemo[fn]; ok {
+		return s
+	}
 	if isIfaceMethod(fn) || !eng.inModule(fn) {
 		return map[string]bool{} // cannot call counted functions on behalf of verified code
+	}
+	return eng.bumpBodyLocked(fn, onStack)
+}
+
+func (eng *Engine) bumpBodyLocked(fn *types.Func, onStack map[*types.Func]bool) map[string]bool {
+	if s, ok := eng.bumpMemo[fn]; ok {
+		return s
 	}
 	di := eng.decls[fn]
 	if di == nil && fn.Pkg() != nil {
